@@ -122,7 +122,7 @@ func main() {
 		rc.detail = w.Op
 	}
 	rng := r.Rng("c06")
-	scale := r.Pick(1, 8)
+	scale := r.Pick(3, 24)
 	workScalar(rc, rng, scale)
 	workField(rc, rng, scale)
 	workCurve(rc, rng, scale)
@@ -321,6 +321,12 @@ func workCurve(rc *recorder, rng *rand.Rand, scale int) {
 		}
 		rc.out("CompressedEdwardsY.IsCanonicalVartime", bb(c.IsCanonicalVartime()))
 		rc.out("EdwardsPoint.UnmarshalBinary", be(curve.NewEdwardsPoint().UnmarshalBinary(b)))
+		var cu curve.CompressedEdwardsY
+		rc.out("CompressedEdwardsY.UnmarshalBinary", be(cu.UnmarshalBinary(b)), cu[:])
+		nc, nerr := curve.NewCompressedEdwardsYFromBytes(b)
+		rc.out("NewCompressedEdwardsYFromBytes", be(nerr), bb(nc != nil))
+		var cru curve.CompressedRistretto
+		rc.out("CompressedRistretto.UnmarshalBinary", be(cru.UnmarshalBinary(b)), cru[:])
 		var cr curve.CompressedRistretto
 		cr.SetBytes(b)
 		rp, err := curve.NewRistrettoPoint().SetCompressed(&cr)
@@ -490,6 +496,8 @@ func workEd25519(rc *recorder, rng *rand.Rand, scale int) {
 		if c.Variant == 0 && len(pk) == 32 {
 			rc.out("ed25519.Verify", bb(ed25519.Verify(pk, msg, sig)))
 			rc.out("cache.Verify", bb(lru.Verify(pk, msg, sig)))
+			lru.Add(bv, pk, msg, sig)
+			nb++
 			if exp != nil {
 				rc.out("ed25519.VerifyExpanded", bb(ed25519.VerifyExpanded(exp, msg, sig)))
 				y := exp.CompressedY()
@@ -625,11 +633,12 @@ func workEcvrf(rc *recorder, rng *rand.Rand, scale int) {
 }
 
 func workSr25519(rc *recorder, rng *rand.Rand, scale int) {
-	bv := sr25519.NewBatchVerifier()
+	bv := sr25519.NewBatchVerifierWithCapacity(4)
 	for i := 0; i < 16*scale; i++ {
 		mb := mon.Bytes(rng, 32)
 		msk, err := sr25519.NewMiniSecretKeyFromBytes(mb)
-		rc.out("sr25519.NewMiniSecretKeyFromBytes", be(err))
+		mmb, _ := msk.MarshalBinary()
+		rc.out("sr25519.NewMiniSecretKeyFromBytes", be(err), mmb)
 		var sk *sr25519.SecretKey
 		if i%2 == 0 {
 			sk = msk.ExpandUniform()
